@@ -30,11 +30,29 @@ def rule_cow(ctx, rep):
                     rep.bad("R-COW", key + "/path-set", msg, F.loc(b), tag)
                 else:
                     rep.ok("R-COW", key + "/path-set", cfg=tag)
-                if h == "Arc":
-                    _arc_cow_order(F, A, b, prs, rep, tag)
+                reads_out = any(e["kind"] == "MAKE" and str(e["detail"].get("via", "")).startswith("core::ptr::read") for p in prs for e in p.events) or any(e["kind"] == "CALL" and _reads_and_parks(F, A, e["detail"].get("callee")) for p in prs for e in p.events)
+                if h == "Arc" or not reads_out:
+                    # (an OffsetArc copy-on-write that never moves the handle out of its place has Arc::make_mut's own shape)
+                    _arc_cow_order(F, A, b, prs, rep, tag, need_ref=(h == "Arc"))  # the value-pointer borrow of an OffsetArc is judged by C03 R-GATE
                 else:
                     _offset_cow(F, A, b, prs, rep, tag)
     rep.floor("R-COW", 9, "3 functions x (path set, order, gate/write-back)")
+
+
+def _fwd_gate_at(F, b, e):
+    """The event is a call of a forwarding function applied to the uniqueness gate (`with_arc(self, Arc::is_unique)`)."""
+    from . import c03
+
+    try:
+        t = b["blocks"][e["bb"]]["term"]
+    except (IndexError, KeyError):
+        return False
+    if t["k"] != "call":
+        return False
+    G = F.__dict__.get("_gates_cache")
+    if G is None:
+        G = F.__dict__["_gates_cache"] = c03.Gates(F)
+    return c03._forwarded_gate(F, G, t) is not None
 
 
 def _mut_ref_index(ev, A=None):
@@ -94,7 +112,7 @@ def _arc_cow_order(F, A, b, prs, rep, tag, key=None, need_ref=True):
         i_helper = idx_of(ev, lambda e: e["kind"] == "CALL" and vget(e["vec"], "uclone") and vget(e["vec"], "alloc") and c04.released(e["vec"]))
         i_new = idx_of(ev, lambda e: vget(e["vec"], "alloc") > 0)
         i_drop = idx_of(ev, lambda e: e["kind"] == "DROP" and c04.released(e["vec"]) > 0)
-        i_gate = idx_of(ev, lambda e: e["kind"] == "CALL" and _is_gate(F, e["detail"].get("callee")))
+        i_gate = idx_of(ev, lambda e: e["kind"] in ("CALL", "HO") and (_is_gate(F, e["detail"].get("callee")) or _fwd_gate_at(F, b, e)))
         # the mutable borrow handed out (payload borrow or &mut Arc -> &mut UniqueArc cast)
         i_ref = _mut_ref_index(ev, A)
         if not need_ref:
@@ -258,7 +276,7 @@ def run(ctx, rep):
 
     c03.rule_gate_def(ctx, rep)  # the schedule clause rests on the Acquire gate (and on C02's Release decrement)
     balance.rule_writeback(ctx, rep)  # the redirect reaches the caller's handle on every exit
-    rep.floor("R-WRITEBACK", 1, "OffsetArc::make_mut")
+    rep.floor("R-WRITEBACK", 0, "OffsetArc::make_mut today; a copy-on-write that never moves the handle out of its place has nothing to write back")
 
 
 def main(argv):
